@@ -27,6 +27,10 @@ CHECKS = {
     'C09': ('model_checking', 'cat/pad/diag/mprod/to_ttm/conj/clone against the dense operation for all core, fill and factor values per structure (pad fill value symbolic, so 0 and non-zero are both covered).', '4 C09'),
     'C10': ('model_checking', 'reshape / permute / to_qtt on structurally-orthogonal inputs with symbolic magnitudes and symbolic eps (exact QR/SVD models), qtt_to_tens on arbitrary symbolic cores: requested shape exactly, '
             'error <= c*eps*norm per path, and exact equality at the default eps (decides sign/scale preservation under the positive-diagonal QR convention).', '4 C10'),
+    'C14': ('model_checking', 'PARTIAL: decides only the clause "dmrg_cross calls the user function with an M x d int64 index matrix whose column k lies in [0, N[k])" and the absence of shape/index errors, '
+            'not the accuracy clause (convergence of a randomised floating-point iteration is not encodable) and not function_interpolate. The real dmrg_cross / _maxvol source is executed with every floating value '
+            'abstracted to HAVOC (any value; each comparison an independent nondeterministic choice), so every outcome of pivoting, rank truncation and the convergence test is a path; the integer side '
+            '(index sets, unravel_index arithmetic, gathers, concatenations, ranks) stays exact and z3 (QF_LIA) decides the range obligations per path.', '4 C14'),
     'C15': ('model_checking', 'Autograd model on exact symbolic expressions: tracked cores are symbols, detach/item/numpy/tensor(t) are value-equal cut copies, backward() is exact differentiation. For 21 expressions over the '
             'differentiable operations and every choice of tracked operand/core, z3 decides EXISTS core values . dF_TT/dtheta != dF_dense/dtheta; grad.grad / grad.grad_list bookkeeping and shapes checked per path; '
             'each replay compares torch.autograd gradients on the real code.', '4 C15'),
